@@ -241,15 +241,17 @@ func (rd *HandlingDataManager) initializeStreams() (err error) {
 	if err != nil {
 		return fmt.Errorf("failed to create stream: %w", err)
 	}
-	rd.stream = stream
-	rd.stream.WithHub(rd.lunarHub)
-	verifhook.Yield("engine.published")
+	stream.WithHub(rd.lunarHub)
 	if err = verifhook.Fault("engine.init", ""); err != nil {
 		return fmt.Errorf("failed to initialize streams: %w", err)
 	}
-	if err = rd.stream.Initialize(); err != nil {
+	if err = stream.Initialize(); err != nil {
 		return fmt.Errorf("failed to initialize streams: %w", err)
 	}
+	// The new stream starts serving transactions only once it is fully
+	// initialized; on failure the previous one stays in place.
+	rd.stream = stream
+	verifhook.Yield("engine.published")
 
 	rd.stream.InitializeHubCommunication()
 	if err = config.WaitForProxyHealthcheck(); err != nil {
